@@ -1826,9 +1826,12 @@ impl<K: AsRef<Key>> ServerError<K> {
         let mut builder = builder.additional();
         match self.0 {
             ServerErrorInner::Unsigned { error } => {
-                let tsig = {
-                    MessageTsig::from_message(msg)
-                        .expect("missing or malformed TSIG record")
+                let Ok(tsig) = MessageTsig::from_message(msg) else {
+                    // The request has no single, well-formed TSIG record
+                    // in last position that could be echoed. RFC 8945,
+                    // section 5.2, asks for a plain FORMERR in that case.
+                    builder.header_mut().set_rcode(Rcode::FORMERR);
+                    return Ok(builder);
                 };
                 builder.push((
                     tsig.record.owner(),
